@@ -12,6 +12,7 @@
    id the table gives for the name).  [None] = the Python raises. *)
 From Coq Require Import ZArith NArith List Bool Init.Byte Strings.Byte.
 From Coq Require Strings.String.
+Import Strings.String.StringSyntax.
 From RSV Require Import lib.Bytes gen.GenMime model.Frame.
 Import ListNotations.
 Open Scope N_scope.
@@ -38,26 +39,15 @@ Definition auth_name_of_id (i : N) : option bytes := dict_get_id auth_table (Z.o
 Definition typed_kind (n : bytes) : option N := dict_get typed_entry_table n.
 
 Definition ascii (s : String.string) : bytes := String.list_byte_of_string s.
+Arguments ascii s%string_scope.
 
-(* TO BE GENERATED: the encoding each typed item class passes to CompositeMetadataItem.__init__
-   (RoutingMetadata.__init__: WellKnownMimeTypes.MESSAGE_RSOCKET_ROUTING.value.name; StreamDataMimetype.__init__:
-   MESSAGE_RSOCKET_MIMETYPE; StreamDataMimetypes.__init__: MESSAGE_RSOCKET_ACCEPT_MIMETYPES;
-   AuthenticationContent.__init__: MESSAGE_RSOCKET_AUTHENTICATION), kind -> name. *)
-Definition ctor_encoding_table : list (N * bytes) := [
-  (1, ascii "message/x.rsocket.routing.v0");
-  (2, ascii "message/x.rsocket.mime-type.v0");
-  (3, ascii "message/x.rsocket.accept-mime-types.v0");
-  (4, ascii "message/x.rsocket.authentication.v0")
-].
+(* gen/GenMime.v ctor_encoding_table: the encoding each typed item class passes to CompositeMetadataItem.__init__
+   (RoutingMetadata 1, StreamDataMimetype 2, StreamDataMimetypes 3, AuthenticationContent 4), kind -> name. *)
 Definition ctor_encoding (kind : N) : bytes :=
   match find (fun p => fst p =? kind) ctor_encoding_table with Some (_, n) => n | None => [] end.
 
-(* TO BE GENERATED: authentication_content.metadata_item_factory_by_type (keys
-   WellKnownAuthenticationTypes.SIMPLE/BEARER.value.name -> 1 AuthenticationSimple, 2 AuthenticationBearer) and the
-   [type] properties of the two classes (SIMPLE.value.name, BEARER.value.name). *)
-Definition auth_factory_table : list (bytes * N) := [ (ascii "simple", 1); (ascii "bearer", 2) ].
-Definition auth_simple_type : bytes := ascii "simple".
-Definition auth_bearer_type : bytes := ascii "bearer".
+(* gen/GenMime.v auth_factory_table: authentication_content.metadata_item_factory_by_type (type name -> 1
+   AuthenticationSimple, 2 AuthenticationBearer); auth_simple_type / auth_bearer_type: the [type] properties. *)
 
 (* ------------------------------------------------------------------------------------------------ *)
 (* values *)
